@@ -4,7 +4,7 @@ ROOT = os.path.dirname(os.path.dirname(os.path.abspath(__file__)))
 REPO = os.environ.get('VERIF_REPO', '/repo')
 
 
-def build(driver, sources, extra=()):
+def build(driver, sources, extra=(), libs=()):
     """compile replay/<driver> with the listed /repo sources (relative paths); returns path of the binary"""
     outdir = os.path.join(os.environ.get('VERIF_BUILD') or os.path.join(ROOT, 'build'), 'replay')
     os.makedirs(outdir, exist_ok=True)
@@ -18,7 +18,7 @@ def build(driver, sources, extra=()):
                 h.update(open(os.path.join(root, f), 'rb').read())
     exe = os.path.join(outdir, os.path.splitext(driver)[0] + '-' + h.hexdigest()[:12])
     if not os.path.exists(exe):
-        cmd = ['g++', '-std=c++20', '-O1', '-I' + os.path.join(REPO, 'include'), '-I' + REPO, '-D_FILE_OFFSET_BITS=64'] + list(extra) + files + ['-o', exe, '-lpthread']
+        cmd = ['g++', '-std=c++20', '-O1', '-I' + os.path.join(REPO, 'include'), '-I' + REPO, '-D_FILE_OFFSET_BITS=64'] + list(extra) + files + ['-o', exe, '-lpthread'] + list(libs)
         r = subprocess.run(cmd, stdout=subprocess.PIPE, stderr=subprocess.STDOUT)
         if r.returncode != 0:
             raise RuntimeError('replay build failed: ' + r.stdout.decode()[-1500:])
